@@ -62,6 +62,11 @@ Outcome(s, d) ==
                          [] d = "ptr_slice_" \o s -> "ok"
                          [] OTHER -> "ErrIncompatibleTypes")
 
+(* ---------------- scalar steps ---------------- *)
+\* NewScalarStep: the five scalar spellings; anything else is kept as an unknown step WITH a warning (never a hard error)
+ScalarStepType(s) == IF s \in {"wait", "waiter"} THEN "wait" ELSE IF s \in {"block", "input", "manual"} THEN "input" ELSE "unknown"
+ScalarStepWarns(s) == ScalarStepType(s) = "unknown"
+
 (* ---------------- inline-friendly marshalling ---------------- *)
 \* outline (tagged) fields win over an inline entry with the same key; yaml:"-" fields never appear
 MarshalKeys(outline, inline, skipped) == (DOMAIN inline \cup DOMAIN outline) \ skipped
